@@ -233,9 +233,12 @@ class Report:
 _MOD = None
 
 
-def _worker_init(modname, repo):
+def _worker_init(modname, repo, env=None):
     global _MOD
     os.environ.setdefault("PYTHONHASHSEED", "0")
+    if env:
+        assert "funsor" not in sys.modules, "environment flags are read at import: funsor must not be imported yet"
+        os.environ.update(env)
     if repo not in sys.path:
         sys.path.insert(0, repo)
     _MOD = importlib.import_module(modname)
@@ -285,8 +288,10 @@ def chunked(it, n):
         yield buf
 
 
-def run_cases(mod, tier, seed, rep, cases=None, chunk=None, nproc=None):
-    """Run mod.check over mod.cases(tier) on a pool of long-lived workers."""
+def run_cases(mod, tier, seed, rep, cases=None, chunk=None, nproc=None, env=None):
+    """Run mod.check over mod.cases(tier) on a pool of long-lived workers.
+
+    env: environment variables set in every worker BEFORE funsor is imported there (FUNSOR_TYPECHECK ...)."""
     nproc = nproc or NPROC
     cases = list(mod.cases(tier) if cases is None else cases)
     if not cases:
@@ -300,12 +305,12 @@ def run_cases(mod, tier, seed, rep, cases=None, chunk=None, nproc=None):
         (mod.ID, tier, seed, i, c) for i, c in enumerate(chunked(cases, chunk))
     ]
     if nproc == 1:
-        _worker_init(mod.__name__, REPO)
+        _worker_init(mod.__name__, REPO, env)
         for job in jobs:
             rep.merge(_run_chunk(job))
         return
     ctx = mp.get_context("fork")
-    with ctx.Pool(nproc, initializer=_worker_init, initargs=(mod.__name__, REPO)) as pool:
+    with ctx.Pool(nproc, initializer=_worker_init, initargs=(mod.__name__, REPO, env)) as pool:
         for r in pool.imap_unordered(_run_chunk, jobs):
             rep.merge(r)
             if budget and time.time() - t0 > budget:
@@ -428,7 +433,8 @@ def run_property(pid, tier, seed):
     mod = importlib.import_module("fv.props." + pid.lower())
     rep = Report(pid, tier, seed)
     if hasattr(mod, "explore"):
-        _worker_init(mod.__name__, REPO)
+        if not getattr(mod, "EXPLORE_FORKS", False):
+            _worker_init(mod.__name__, REPO)
         mod.explore(tier, seed, rep)
     else:
         run_cases(mod, tier, seed, rep)
